@@ -4,6 +4,7 @@
   a[i]             array element (mathematical integer; bool arrays are 0/1)
   old(e)           e in the function's initial state
   entry(e)         e in the state at entry of the loop the invariant belongs to
+  feq(a, b)        C's == on floating-point values (a < b etc. on floats are C's ordered comparisons)
   forall(j, lo, hi, body) / exists(j, lo, hi, body)     lo <= j < hi
   implies(a, b), ite(c, a, b), min(a, b), max(a, b), abs(a)
   a // b, a % b    floor division / modulo (Python semantics)
@@ -156,6 +157,16 @@ class SpecEval:
                 return a == b
             if isinstance(op, ast.NotEq):
                 return a != b
+            # ordered comparisons: the same uninterpreted predicates the code side uses for C's < and <=
+            lt, le = sym.uf("f_lt", sym.F, sym.F, sym.B), sym.uf("f_le", sym.F, sym.F, sym.B)
+            if isinstance(op, ast.Lt):
+                return lt(a, b)
+            if isinstance(op, ast.Gt):
+                return lt(b, a)
+            if isinstance(op, ast.LtE):
+                return le(a, b)
+            if isinstance(op, ast.GtE):
+                return le(b, a)
             raise SpecError("ordered float comparison in spec")
         a, b = self.int(a), self.int(b)
         if isinstance(op, ast.Lt):
@@ -218,6 +229,10 @@ class SpecEval:
             env2 = dict(env)
             env2["st"] = env["init"]
             return self.ev(n.args[0], env2)
+        if f == "feq":
+            # C's == on floating-point values (not identity of the bit patterns: NaN, signed zeros)
+            a, b = self.ev(n.args[0], env), self.ev(n.args[1], env)
+            return sym.uf("f_eq", sym.F, sym.F, sym.B)(a, b)
         if f == "entry":
             if env["entry"] is None:
                 raise SpecError("entry() not available here")
